@@ -19,6 +19,7 @@ import (
 	"fmt"
 	"os"
 	"path/filepath"
+	"reflect"
 	"regexp"
 	"sort"
 	"strings"
@@ -315,17 +316,66 @@ func realC05Apply(raw json.RawMessage) any {
 	dict0, _ := core.DecodeVal(a.Dict).(map[string]any)
 	fs := c05FS(ctx, opts, filepath.Join(root, a.WD), mainAbs, dict0)
 	dict, _ := core.DecodeVal(a.Dict).(map[string]any)
+	var shared []string
 	out := core.SafeCall(func() any {
 		err := loader.VerifApplyExtends(ctx, dict, opts)
+		if err == nil {
+			shared = sharedStructure(dict["services"])
+		}
 		return c05Outcome(dict, err)
 	})
-	return map[string]any{"out": out, "fs": fs, "main": mainAbs}
+	return map[string]any{"out": out, "fs": fs, "main": mainAbs, "shared": shared}
+}
+
+// sharedStructure lists the pairs of paths under which one and the same non-empty mapping or sequence *object* is
+// reachable in the resolved services: the result of extends must be a tree — the base is deep-cloned before the merge
+// and the special mergers build fresh containers — because every later stage (canonical form, path resolution,
+// normalisation) rewrites the tree in place, so a container shared by two services, or by two entries of one service,
+// is cross-talk waiting to happen.  (The Lean model is value-typed; aliasing is decided here, on the real heap.)
+func sharedStructure(v any) []string {
+	seen := map[uintptr]string{}
+	var out []string
+	var walk func(v any, path string)
+	walk = func(v any, path string) {
+		switch x := v.(type) {
+		case map[string]any:
+			if len(x) == 0 {
+				return
+			}
+			p := reflect.ValueOf(x).Pointer()
+			if first, dup := seen[p]; dup {
+				out = append(out, first+" = "+path)
+				return
+			}
+			seen[p] = path
+			for k, e := range x {
+				walk(e, path+"."+k)
+			}
+		case []any:
+			if len(x) == 0 {
+				return
+			}
+			p := reflect.ValueOf(x).Pointer()
+			if first, dup := seen[p]; dup {
+				out = append(out, first+" = "+path)
+				return
+			}
+			seen[p] = path
+			for i, e := range x {
+				walk(e, fmt.Sprintf("%s[%d]", path, i))
+			}
+		}
+	}
+	walk(v, "services")
+	sort.Strings(out)
+	return out
 }
 
 type c05ApplyReal struct {
-	Out  json.RawMessage `json:"out"`
-	FS   json.RawMessage `json:"fs"`
-	Main string          `json:"main"`
+	Shared []string        `json:"shared"`
+	Out    json.RawMessage `json:"out"`
+	FS     json.RawMessage `json:"fs"`
+	Main   string          `json:"main"`
 }
 
 // c05Norm maps every way the merge step can fail — "cannot override", "<path>: unexpected type …" (the special mergers,
@@ -379,6 +429,9 @@ func judgeC05Apply(args, real, drv json.RawMessage) *core.Verdict {
 	if json.Unmarshal(drv, &d) != nil || len(d.Outs) == 0 {
 		return core.Disagree("malformed driver outcome: " + string(drv))
 	}
+	if len(r.Shared) > 0 {
+		return core.Fail("result-shares-structure:"+sharedKind(r.Shared[0]), "the resolved services are not a tree: "+strings.Join(r.Shared, "; "))
+	}
 	// ---- spec oracle: the flatten specification (Spec/Extends.lean `flattenF`, proved equivalent to `Flat`) computed
 	// by the driver for every service — no tracker, no memoisation, no visit order.  Inside its domain (every service
 	// flattens) the real outcome must be exactly that: a difference is a failing input, not just a broken tie.
@@ -389,6 +442,32 @@ func judgeC05Apply(args, real, drv json.RawMessage) *core.Verdict {
 		return core.Disagree("ApplyExtends outcome is not an outcome of Extends.applyExtendsOrd under any visit order")
 	}
 	return nil
+}
+
+// sharedKind names the attribute path of a sharing report without service names and indices (a stable key).
+func sharedKind(s string) string {
+	parts := strings.Split(s, " = ")
+	norm := func(p string) string {
+		segs := strings.Split(p, ".")
+		if len(segs) > 2 {
+			segs = segs[2:] // drop "services.<name>"
+		} else {
+			segs = nil
+		}
+		for i, g := range segs {
+			if j := strings.Index(g, "["); j >= 0 {
+				segs[i] = g[:j] + "[]"
+			}
+		}
+		if len(segs) > 1 {
+			segs = segs[:1] // the attribute is enough for a stable key
+		}
+		return strings.Join(segs, ".")
+	}
+	if len(parts) != 2 {
+		return "?"
+	}
+	return norm(parts[0]) + "~" + norm(parts[1])
 }
 
 // taggedMap splits a tagged mapping {"m":[[k,v]…]} into its entries.
